@@ -331,6 +331,39 @@ pub fn run_req(w: &World, case: &Value, out: &mut dyn Write) {
         }
     };
 
+    // the (documented schema, instance) pairs of the case, in the order of
+    // Run_C07.xvec, for tools/c07_xcheck.py
+    let mut xpairs: Vec<Value> = vec![];
+    for s in case["sent"].as_array().expect("sent") {
+        let name = s["name"].as_str().unwrap_or("");
+        let loc = if s["in"] == "path" { Loc::Path } else { Loc::Query };
+        if let Some(p) = op.params.iter().find(|p| p.name == name && p.loc == loc) {
+            xpairs.push(json!([p.schema, s["value"]]));
+        }
+    }
+    if let (Some((_, content)), Some(v)) = (&op.body, b.get("value")) {
+        if let Some((_, Some(sch))) = content.iter().find(|(ct, _)| Some(ct.as_str()) == b["ct"].as_str()) {
+            xpairs.push(json!([sch, v]));
+        }
+    }
+    if let Some(j) = obs_j["body"].get("json") {
+        let find = |pred: &dyn Fn(&RKey) -> bool| op.responses.iter().find(|r| pred(&r.key));
+        let r = find(&|k| matches!(k, RKey::Code(n) if *n == status))
+            .or_else(|| find(&|k| matches!(k, RKey::Range(d) if *d == status / 100)))
+            .or_else(|| find(&|k| matches!(k, RKey::Default)));
+        if let Some(r) = r {
+            let sch = r
+                .content
+                .iter()
+                .find(|(mt, _)| mt == "application/json")
+                .or_else(|| r.content.iter().find(|(mt, _)| mt == "*/*"));
+            if let Some((_, Some(sch))) = sch {
+                xpairs.push(json!([sch, j]));
+            }
+        }
+    }
+    let mut obs_j = obs_j;
+    obs_j["xcheck"] = json!({"pairs": xpairs});
     let coq = format!(
         "(CReq {} {} {} {} {} (mkReq {} {} {}) {})",
         g_spec(&info.path_spec),
